@@ -12,11 +12,58 @@ import (
 
 // C29 — requests survive primary connection loss without duplicates.
 func init() {
-	register("C29", []string{"telegram", "telegram/internal/manager"}, func(c *engine.Ctx) {
+	register("C29", []string{"telegram", "telegram/internal/manager", "rpc"}, func(c *engine.Ctx) {
 		c.Explain("C29: (R1) Client.invokeConn re-invokes only when errRetryableOnNewConn(err) is true for the error of the last attempt: every cycle through conn.Invoke passes the true edge of that test, and every other outcome returns the attempt's error unchanged. (R2, select cover + snapshot) the wait before a retry is a blocking select with the caller context, the client context (whose case returns a non-nil error, so a closed client never waits for a reconnect) and the connChanged channel read together with conn in one connMux critical section; replaceConn swaps conn, closes the old channel and installs a fresh one, and every caller holds connMux. (R3) telegram.errRetryableOnNewConn is the disjunction over exactly {pool.ErrConnDead, rpc.ErrEngineClosed}, evaluated for all truth assignments (the acknowledged case of C26 yields neither). (R4) every attempt sends the same input and output with the caller's context. (R5, manager) Conn.Run signals 'dead' on every exit unconditionally (deferred), waitSession's blocking select watches readiness, dead and the caller context, returns pool.ErrConnDead on dead and ctx.Err() on the context, and Conn.Invoke returns the waitSession error wrapped (so it stays classifiable).")
 		c.NotCover("server-side duplicate detection; liveness of the reconnect loop; kills at protocol steps are classified by C26's rules, not replayed here")
 		c29(c)
+		c29R6(c)
+		// "acknowledged ⇒ not sent again" keys on the engine's ack bookkeeping:
+		// every id of an ack batch must reach its waiter (shared with C25.R4)
+		c25R4(c, "C29.R7")
 	})
+}
+
+// c29R6: "once the client is closed, pending and new invocations return" rests
+// on R5's dead signal, which only a connection that is *run* ever sends. The
+// reconnect loop installs the replacement as c.conn before it sleeps, and
+// invokeConn waiters move to it at once; so runUntilRestart must start the
+// current c.conn on every path, also when its context is already cancelled
+// (Run then fails immediately and marks the connection dead).
+func c29R6(c *engine.Ctx) {
+	fn := c.MustFunc("C29.R6", "telegram", "Client.runUntilRestart")
+	if fn == nil {
+		return
+	}
+	var run ssa.CallInstruction
+	var runMC *ssa.MakeClosure
+	for _, call := range engine.CallsTo(fn, false, "(*tdsync.CancellableGroup).Go") {
+		a := engine.Args(call.Common())
+		mc, ok := engine.Unwrap(a[1]).(*ssa.MakeClosure)
+		if !ok || len(mc.Bindings) != 1 {
+			continue
+		}
+		f, _ := mc.Fn.(*ssa.Function)
+		if f == nil || !strings.HasSuffix(f.Name(), "Run$bound") {
+			continue
+		}
+		if engine.Describe(mc.Bindings[0]) == "p:c.conn" {
+			run, runMC = call, mc
+		}
+	}
+	ok := run != nil
+	if ok {
+		ls := engine.Locksets(fn)
+		if ld, isL := engine.Unwrap(runMC.Bindings[0]).(*ssa.UnOp); isL {
+			ok = ls[ld]["p:c.connMux"]
+		}
+		for _, r := range exits(fn) {
+			if (engine.PathQuery{Fn: fn, Barrier: func(i ssa.Instruction) bool { return i == run.(ssa.Instruction) }}).Reaches(r) {
+				ok = false
+			}
+		}
+	}
+	c.Check(ok, "C29.R6", "runUntilRestart/current-conn-is-always-run", fn.Pos(), "every path through runUntilRestart must start c.conn (read under connMux) with g.Go(conn.Run): a replacement connection that is installed but never run never signals dead, and callers waiting on it hang after the client is closed")
+	c.Floor("C29.R6", 1, 1)
 }
 
 func c29(c *engine.Ctx) {
